@@ -193,6 +193,8 @@ def run(F, S, R, tier):
         spec.loader.exec_module(m)
         m.run(F, S, _Prefixed(R, "freezer/"), tier)
     R.guard("freezer", freezer_integrity)
+    import common as _common
+    _common.effects(R, F, ['freeze'])
 
 
 class _Prefixed:
